@@ -201,7 +201,7 @@ int main(int argc, char** argv) {
         GGeom A, B;
         bool bigSmall = !cov && r.chance(dbl ? 4 : 9);
         // families that reach OverlayNG's input preparation (ring clipping, clip-envelope computation, line limiting), a fixed share of every run
-        int special = (!cov && r.chance(dbl ? 10 : 16)) ? 1 + (int) r.below(3) : 0;
+        int special = (!cov && r.chance(dbl ? 12 : 19)) ? 1 + (int) r.below(4) : 0;
         if (special) bigSmall = false;
         if (cov) { A = coverage(r, out); B.container = 2; }
         else if (special == 1) {
@@ -237,6 +237,23 @@ int main(int argc, char** argv) {
             B = c03clip::smallPartner(r, wx0, wy0, wx1, wy1); if (B.elems[0].kind != 2) { GElem e; e.kind = 2; e.rings.push_back({{wx0, wy0}, {wx1, wy0}, {wx1, wy1}, {wx0, wy1}, {wx0, wy0}}); B.elems[0] = e; }
             if (r.chance(50)) std::swap(A, B);
             out.count("long_lines_small_area"); }
+        else if (special == 4) {
+            // a collection with all three dimensions whose elements do NOT meet: a rectangle, a closed line (a loop that bounds no area) away from
+            // it, and points strictly inside the loop / inside the rectangle / far from both — for the unary union the loop is linework, a point
+            // inside it is covered by nothing
+            long w = r.range(2, 4), hgt = r.range(2, 4), lx = w + r.range(2, 4), ls = r.range(3, 5);
+            A.container = 2;
+            { GElem e; e.kind = 2; e.rings.push_back({{0, 0}, {w, 0}, {w, hgt}, {0, hgt}, {0, 0}}); A.elems.push_back(e); }
+            { GElem e; e.kind = 1; std::vector<IPt> loop = {{lx, 0}, {lx + ls, 0}, {lx + ls, ls}, {lx, ls}, {lx, 0}};
+              if (r.chance(40)) loop = {{lx, 0}, {lx + ls, 0}, {lx + ls / 2, ls}, {lx, 0}};
+              std::rotate(loop.begin(), loop.begin() + (long) r.below(loop.size() - 1), loop.end() - 1); loop.back() = loop.front();
+              e.rings.push_back(loop); A.elems.push_back(e); }
+            { GElem e; e.kind = 0; e.rings.push_back({IPt{lx + ls / 2, 1}}); A.elems.push_back(e); }                       // strictly inside the loop
+            if (r.chance(60)) { GElem e; e.kind = 0; e.rings.push_back({IPt{1, 1}}); A.elems.push_back(e); }                // inside the rectangle
+            if (r.chance(60)) { GElem e; e.kind = 0; e.rings.push_back({IPt{lx + ls + 3, ls + 3}}); A.elems.push_back(e); } // far from both
+            for (size_t q = A.elems.size(); q > 1; q--) std::swap(A.elems[q - 1], A.elems[r.below(q)]);
+            B = gen.geom(r.chance(50) ? 2 : 1, false, false);
+            out.count("loop_with_inner_point"); }
         else if (bigSmall) {
             // a big operand with many vertices (every edge cut into m lattice pieces) and a small partner somewhere inside its extent,
             // with exact contacts on the big one's linework: the envelopes overlap only partly and the rings / lines have more than
@@ -296,7 +313,7 @@ int main(int argc, char** argv) {
             if (r.chance(50)) for (auto o : BIN) ops.push_back(std::string(o) + ":ba");
             if (r.chance(12)) for (auto o : BIN) ops.push_back(std::string(o) + ":aa");
             if (r.chance(12)) { int k = (int) r.below(N_EMPTY); for (auto o : BIN) { ops.push_back(std::string(o) + ":ae" + std::to_string(k)); ops.push_back(std::string(o) + ":ea" + std::to_string(k)); } }
-            if (r.chance(35)) { ops.push_back("uu:a"); if (r.chance(50)) ops.push_back("dsu:a"); if (ga->getGeometryTypeId() == geos::geom::GEOS_MULTIPOLYGON) ops.push_back("uc:a"); }
+            if (special == 4 || r.chance(35)) { ops.push_back("uu:a"); if (r.chance(50)) ops.push_back("dsu:a"); if (ga->getGeometryTypeId() == geos::geom::GEOS_MULTIPOLYGON) ops.push_back("uc:a"); }
             if (r.chance(10)) ops.push_back("uu:gab");
             if (!dbl && r.chance(20)) {      // clip by a lattice rectangle (axis-parallel under the 8 lattice symmetries)
                 long x0 = r.range(-1, gen.span - 1), y0 = r.range(-1, gen.span - 1), x1 = r.range((int) x0 + 1, gen.span + 1), y1 = r.range((int) y0 + 1, gen.span + 1);
